@@ -123,9 +123,9 @@ func (c *conn) Transport(ctx context.Context, request []byte) (response []byte, 
 	}
 }
 
-func (c *conn) Exit(onExit func(), err error) {
+func (c *conn) Exit(onExit func(), e interface{}, err error) {
 	onExit()
-	if e := recover(); e != nil {
+	if e != nil {
 		err = core.NewPanicError(e)
 	}
 	if err != nil {
@@ -145,7 +145,7 @@ func (c *conn) send(request data) (err error) {
 func (c *conn) Send(ctx context.Context, onExit func()) {
 	var err error
 	defer func() {
-		c.Exit(onExit, err)
+		c.Exit(onExit, recover(), err)
 	}()
 	for {
 		select {
@@ -193,7 +193,7 @@ func (c *conn) receive() (err error) {
 func (c *conn) Receive(ctx context.Context, onExit func()) {
 	var err error
 	defer func() {
-		c.Exit(onExit, err)
+		c.Exit(onExit, recover(), err)
 	}()
 	for {
 		select {
